@@ -17,7 +17,12 @@ RULE = ('cases = corpus + generated chunked encodings (payload 0..60 bytes, rand
         'cases ALSO carry a CONTENT_LENGTH in {0, small, payload length, raw length, larger} and a Transfer-Encoding '
         'spelled chunked/Chunked/CHUNKED/"gzip, chunked", for legal and truncated encodings; the model side runs the '
         '_body glue body_read_env; the application is configured through the constructor, app.setup(cfg), '
-        'setup() over constructor values, or a bare setup() with all defaults); the malformed '
+        'setup() over constructor values, or a bare setup() with all defaults; CONTENT_TYPE absent / text / json / '
+        'multipart (the markup parser is fed inside _body_read) / near-multipart; CONTENT_LENGTH in any spelling int() '
+        'accepts (blanks, sign, leading zero, underscore, NBSP, empty, negative) and — as a KNOWN FINDING — spellings '
+        'it rejects; Transfer-Encoding alphabets incl. latin-1 neighbours; earlier partial reads, Request.copy() before '
+        'and after the read, a second Request over the same environ; kind=seq: 3..7 requests served by two shared '
+        'application objects with different limits, interleaved); the malformed '
         'stream takes strict prefixes (cut in size line / payload / terminator / at chunk start), corrupted data '
         'terminators and single-byte substitutions of framing bytes of the same encodings, plus random bytes; '
         'kind=hex cases compare int(b.strip(),16) with lib/PyIntHex.v on numeral-like byte strings. thorough: every '
@@ -90,7 +95,8 @@ def gen_sched(rng, n):
     return [rng.choice([0, 0, 1, 2, 3, 7, 20]) for _ in range(rng.randrange(1, n + 8))]
 
 
-def mk(enc, data, buf, sched, expect, note, via='func', maxb=None, payload=None, cl=None, te=None, conf='ctor'):
+def mk(enc, data, buf, sched, expect, note, via='func', maxb=None, payload=None, cl=None, te=None, conf='ctor',
+       ctype=None, pre=()):
     c = dict(kind='dec', data=list(data), buf=buf, sched=sched, maxb=maxb, via=via, expect=expect, note=note,
              nchunks=enc['nchunks'] if enc else 0)
     if via == 'wsgi':
@@ -98,6 +104,8 @@ def mk(enc, data, buf, sched, expect, note, via='func', maxb=None, payload=None,
         c['cl'] = cl
         c['te'] = 'chunked' if te is None else te
         c['conf'] = conf
+        c['ctype'] = ctype
+        c['pre'] = list(pre)
         assert conf != 'setup_default' or (buf == DEFAULT_MEMFILE and maxb is None)
     if expect == 'exact':
         c['payload'] = list(enc['payload'] if payload is None else payload)
@@ -120,34 +128,79 @@ def framing_positions(enc):
     return pos
 
 
-def gen_wsgi(rng, enc, data, buf, sched, conf):
-    """a request through Ombott.__call__: optionally a Content-Length next to the chunked coding; legal,
-    truncated, mis-terminated and substituted encodings"""
+TE_CHUNKED = ['chunked', 'chunked', 'chunked', 'Chunked', 'CHUNKED', 'chunKed', 'gzip, chunked', 'xchunkedx',
+              '\xc0chunked\xff', 'CHUNKED\xb5', ' chunked ']
+TE_OTHER = ['identity', '', 'chunke', 'chunk ed', 'chun\xc7ked', 'gzip']
+PRE_OPS = ['partial', 'copy', 'copy_after', 'second', 'chunked_prop']
+
+
+def spell_cl(rng, n):
+    """spellings of an integer that int() accepts (latin-1 only: WSGI header values)"""
+    return rng.choice([n, n, n, '%d' % n, ' %d ' % n, '+%d' % n, '0%d' % n, '\xa0%d' % n, '%d\n' % n,
+                       ('%d' % n)[:1] + '_' + ('%d' % n)[1:] if n >= 10 else '%d' % n])
+
+
+def gen_wsgi(rng, enc, data, buf, sched, conf, plain=False):
+    """a request through Ombott.__call__: optionally a Content-Length (any spelling) next to the chunked coding,
+    any CONTENT_TYPE (a multipart one makes _body feed the markup parser), earlier reads / copies of the request
+    before the observed read; legal, truncated, mis-terminated and substituted encodings"""
     hdr = dict(conf=conf)
     if rng.random() < 0.6:
-        hdr.update(cl=rng.choice([0, 0, 1, 3, len(enc['payload']), len(data), len(data), len(data) + 5,
-                                  rng.randrange(0, len(data) + 2)]),
-                   te=rng.choice(['chunked', 'chunked', 'Chunked', 'CHUNKED', 'gzip, chunked']))
+        n = rng.choice([0, 0, 1, 3, len(enc['payload']), len(data), len(data), len(data) + 5,
+                        rng.randrange(0, len(data) + 2)])
+        hdr.update(cl=spell_cl(rng, n) if rng.random() < 0.7 else rng.choice(['', '-3', '-1']),
+                   te=rng.choice(TE_CHUNKED))
+    if rng.random() < 0.35:
+        hdr['ctype'] = rng.choice(['text', 'json', 'mp', 'mp', 'MP', 'mp_nob', 'mp_q'])
+    if rng.random() < 0.3:
+        hdr['pre'] = [rng.choice(PRE_OPS) for _ in range(rng.randrange(1, 3))]
     r = rng.random()
     if r < 0.4:
         return mk(enc, data, buf, sched, expect_for(enc, buf), 'legal', 'wsgi', **hdr)
     if r < 0.75:
         cut = rng.randrange(0, enc['last_end']) if rng.random() < 0.7 else rng.choice(
             [t for t in enc['terms']] + [a for a, b in enc['lines']])
-        if 'cl' in hdr:
+        if isinstance(hdr.get('cl'), int):
             hdr['cl'] = rng.choice([hdr['cl'], cut, 0])
         return mk(enc, data[:cut], buf, sched, expect_for(enc, buf, cut), 'prefix', 'wsgi', **hdr)
     if r < 0.87 and enc['terms']:
         t = rng.choice(enc['terms']) + rng.randrange(2)
         new = rng.choice([x for x in (0, 10, 13, 48, 32, rng.randrange(256)) if x != data[t]])
         return mk(enc, data[:t] + bytes([new]) + data[t + 1:], buf, sched, 'reject', 'badterm', 'wsgi', **hdr)
-    if r < 0.95 or 'cl' in hdr:
+    if r < 0.95 or 'cl' in hdr or plain:
         fp = framing_positions(enc)
         t = rng.choice(fp)
         new = rng.choice([0, 10, 13, 32, 43, 45, 48, 49, 59, 95, 102, 120, 255, rng.randrange(256)])
         return mk(enc, data[:t] + bytes([new]) + data[t + 1:], buf, sched, 'any', 'subst', 'wsgi', **hdr)
     return mk(enc, data, buf, sched, 'any', 'not-chunked', 'wsgi', cl=rng.choice([0, 3, len(data)]),
-              te=rng.choice(['identity', '', 'chunke']), conf=conf)
+              te=rng.choice(TE_OTHER), conf=conf)
+
+
+def gen_seq(rng):
+    """3..7 requests on two application objects with different limits, interleaved"""
+    apps = [[rng.choice(['ctor', 'setup', 'setup_over']), rng.choice([8, 12, 20, 64]), None],
+            [rng.choice(['ctor', 'setup']), rng.choice([9, 16, 33]), rng.choice([None, 0, 5, 12])]]
+    items = []
+    for _ in range(rng.randrange(3, 8)):
+        k = rng.randrange(2)
+        conf, buf, maxb = apps[k]
+        enc = gen_encoding(rng, maxlen=30)
+        while enc['maxline'] > buf:
+            enc = gen_encoding(rng, maxlen=30)
+        it = gen_wsgi(rng, enc, enc['data'], buf, gen_sched(rng, len(enc['data'])), conf, plain=True)
+        it['maxb'] = maxb
+        if maxb is not None:
+            it['expect'] = 'any'
+        it['app'] = k
+        items.append(it)
+    return dict(kind='seq', apps=apps, items=items)
+
+
+def gen_cl_garbage(rng):
+    """finding (C12-content-length-not-int, seen from C05): a Content-Length int() rejects"""
+    enc = gen_encoding(rng, maxlen=12)
+    return mk(enc, enc['data'], enc['maxline'] + 1, [], 'exact', 'legal', 'wsgi',
+              cl=rng.choice(['abc', '1e3', '12abc', '1.0', '0x10', '1__2', '--1']), te='chunked')
 
 
 def gen_dec(rng):
@@ -208,7 +261,11 @@ def gen_hex(rng):
 
 def gen(rng, n):
     for i in range(n):
-        if i % 7 == 6:
+        if i % 20 == 13:
+            yield gen_seq(rng)
+        elif i % 200 == 57:
+            yield gen_cl_garbage(rng)
+        elif i % 7 == 6:
             yield gen_hex(rng)
         else:
             yield gen_dec(rng)
@@ -272,6 +329,33 @@ def corpus():
         out.append(mk(dict(nchunks=1), trunc, b, [], 'reject', 'prefix', 'wsgi', conf=conf))
         out.append(mk(dict(nchunks=1), b'3\r\nabcXX0\r\n\r\n', b, [], 'reject', 'badterm', 'wsgi', conf=conf))
         out.append(mk(dict(nchunks=1), b'zz\r\nabc\r\n0\r\n\r\n', b, [], 'any', 'subst', 'wsgi', conf=conf))
+    # audit round: CONTENT_TYPE (a multipart one feeds every part to the markup parser inside _body_read), raw
+    # Content-Length spellings, earlier reads / copies, Transfer-Encoding alphabets
+    for ct in ('mp', 'MP', 'mp_nob', 'mp_q', 'json', 'text'):
+        out.append(mk(dict(nchunks=1, payload=b'abcdefgh'), legal, 8, [0, 2] * 9, 'exact', 'legal', 'wsgi', ctype=ct))
+        out.append(mk(dict(nchunks=1), trunc, 8, [], 'reject', 'prefix', 'wsgi', ctype=ct))
+    for clr in ('', ' 5 ', '+5', '05', '\xa05', '5\n', '2_0', '-3'):
+        out.append(mk(dict(nchunks=1, payload=b'abcdefgh'), legal, 8, [], 'exact', 'legal', 'wsgi', cl=clr))
+    for pre in (['partial'], ['copy'], ['copy_after'], ['second'], ['chunked_prop'], ['partial', 'copy'], ['second', 'partial']):
+        out.append(mk(dict(nchunks=1, payload=b'abcdefgh'), legal, 4, [1] * 30, 'exact', 'legal', 'wsgi', pre=pre))
+        out.append(mk(dict(nchunks=1), trunc, 8, [], 'reject', 'prefix', 'wsgi', pre=pre))
+    for te in TE_CHUNKED:
+        out.append(mk(dict(nchunks=1, payload=b'abcdefgh'), legal, 8, [], 'exact', 'legal', 'wsgi', te=te, cl=3))
+    for te in TE_OTHER:
+        out.append(mk(dict(nchunks=1), legal, 8, [], 'any', 'not-chunked', 'wsgi', te=te, cl=len(legal)))
+    # object reuse: 413 / 400 / 200 / 400 / 413 / 200 on shared applications
+    seq_items = []
+    for k, (d, ex, note) in enumerate([(legal, 'any', 'legal'), (trunc, 'reject', 'prefix'), (legal, 'exact', 'legal'),
+                                       (b'3\r\nabcXX', 'reject', 'badterm'), (legal, 'any', 'legal'),
+                                       (legal, 'exact', 'legal'), (b'', 'reject', 'prefix')]):
+        app_i = 1 if k in (0, 4) else 0
+        it = mk(dict(nchunks=1, payload=b'abcdefgh'), d, 8, [], ex, note, 'wsgi', maxb=5 if app_i else None,
+                conf='setup' if app_i else 'ctor')
+        it['app'] = app_i
+        seq_items.append(it)
+    out.append(dict(kind='seq', apps=[['ctor', 8, None], ['setup', 8, 5]], items=seq_items))
+    # finding: Content-Length that int() rejects on a chunked request -> 500
+    out.append(mk(dict(nchunks=1, payload=b'abcdefgh'), legal, 8, [], 'exact', 'legal', 'wsgi', cl='abc'))
     out.append(mk(dict(nchunks=1), legal, 4, [], 'any', 'legal', 'wsgi', maxb=5, conf='setup'))
     out.append(mk(dict(nchunks=1), legal, 4, [], 'any', 'legal', 'wsgi', maxb=5, conf='setup_over'))
     return out
@@ -338,6 +422,8 @@ def run_impl(case):
             return dict(kind='hex', value=int(bytes(case['b']).strip(), 16))
         except ValueError:
             return dict(kind='hex', value=None)
+    if case['kind'] == 'seq':
+        return run_seq(case)
     from ombott.request_pkg.body_mixin import _body_read
     from ombott.request_pkg.errors import BodySizeError, BodyParsingError
     st = FragStream(case['data'], case['sched'])
@@ -351,22 +437,67 @@ def run_impl(case):
         spilled = not isinstance(body, BytesIO)
         body.seek(0)
         return dict(status='ok', body=list(body.read()), spilled=spilled, reqs=st.log, pos=st.pos)
-    app = make_app(case.get('conf', 'ctor'), case['buf'], case['maxb'])
-    seen = {}
+    app, holder = app_with_handler(case.get('conf', 'ctor'), case['buf'], case['maxb'])
+    return call_wsgi(app, holder, case, st)
+
+
+def app_with_handler(conf, buf, maxb):
+    """an application with the echo route; [holder] carries the per-request inputs / observations of the
+    handler, so that ONE application object can serve a whole sequence of cases"""
+    app = make_app(conf, buf, maxb)
+    holder = {}
 
     def handler():
-        b = app.request.body
+        case, seen, st = holder['case'], holder['seen'], holder['stream']
+        rq = app.request
+        for op in case.get('pre', ()):
+            if op == 'partial':                 # an earlier partial read of the same body object
+                rq.body.read(3)
+            elif op == 'copy':                  # observe through a copy of the request
+                rq = rq.copy()
+            elif op == 'copy_after':            # read, then observe through a copy made afterwards
+                rq.body.read()
+                rq = rq.copy()
+            elif op == 'second':                # a second Request object over the same environ
+                from ombott import Request
+                rq = Request(rq.environ, config=app.config)
+            elif op == 'chunked_prop':          # the public properties themselves
+                seen['props'] = [rq.chunked, rq.content_length]
+        b = rq.body
         seen['spilled'] = not isinstance(b, BytesIO)
         c1 = b.read()
-        c2 = app.request.body.read()
-        seen['stable'] = c1 == c2
+        n_reads = len(st.log)
+        # the application's own request object sees the same cached body — unless the observing request is a
+        # copy made BEFORE the body was buffered: copy() is shallow, both would share one unread stream and only
+        # one of them can consume it (as in bottle); then only the copy is observed
+        shares = rq.environ is app.request.environ or 'ombott.request.body' in app.request.environ
+        c2 = app.request.body.read() if shares else c1
+        c3 = rq.body.read()
+        seen['stable'] = c1 == c2 == c3 and len(st.log) == n_reads
         return c1
     app.route('/b', method='POST', callback=handler)
+    return app, holder
+
+
+CTYPES = {None: None, 'text': 'text/plain', 'json': 'application/json',
+          'mp': 'multipart/form-data; boundary=XyZ', 'MP': 'Multipart/Form-Data; boundary=XyZ',
+          'mp_nob': 'multipart/form-data; boundary=', 'mp_q': 'multipart/mixed; charset=x; boundary=a;b'}
+
+
+def cl_text(cl):
+    return cl if isinstance(cl, str) else str(cl)
+
+
+def call_wsgi(app, holder, case, st):
+    seen = {}
+    holder.update(case=case, seen=seen, stream=st)
     env = environ('POST', '/b', **{'wsgi.input': st})
     if case.get('te', 'chunked'):
         env['HTTP_TRANSFER_ENCODING'] = case.get('te', 'chunked')
     if case.get('cl') is not None:
-        env['CONTENT_LENGTH'] = str(case['cl'])
+        env['CONTENT_LENGTH'] = cl_text(case['cl'])
+    if CTYPES[case.get('ctype')] is not None:
+        env['CONTENT_TYPE'] = CTYPES[case['ctype']]
     out = {}
 
     def start_response(status, headers, exc_info=None):
@@ -383,13 +514,31 @@ def run_impl(case):
     return dict(status=st_name, reqs=st.log, pos=st.pos)
 
 
+def run_seq(case):
+    """kind=seq: several requests served by the SAME application objects (one Request object per app, the
+    shared HTTPError instances of errors_map), two applications with different limits interleaved"""
+    apps = [app_with_handler(*a) for a in case['apps']]
+    obs = []
+    for it in case['items']:
+        app, holder = apps[it['app']]
+        obs.append(call_wsgi(app, holder, it, FragStream(it['data'], it['sched'])))
+    return dict(kind='seq', items=obs)
+
+
 def encode(case):
     if case['kind'] == 'hex':
         return [1] + enc_str(case['b'])
+    if case['kind'] == 'seq':
+        out = [3]
+        for it in case['items']:
+            e = encode(it)
+            out += [len(e)] + e
+        return out
     if case['via'] == 'wsgi':
-        # through the _body glue: Transfer-Encoding value and content_length (-1 = header absent)
-        cl = -1 if case.get('cl') is None else case['cl']
-        return ([2, cl, case['buf'], 0 if case['maxb'] is None else 1, case['maxb'] or 0]
+        # through the _body glue: the RAW Content-Length value (flag 0 = header absent) and Transfer-Encoding
+        cl = case.get('cl')
+        return ([2, 0 if cl is None else 1, case['buf'], 0 if case['maxb'] is None else 1, case['maxb'] or 0]
+                + enc_str(b'' if cl is None else cl_text(cl).encode('latin1'))
                 + enc_str(case.get('te', 'chunked').encode('latin1')) + enc_str(case['data'])
                 + enc_list(case['sched'], lambda k: [k]))
     return ([0, case['buf'], 0 if case['maxb'] is None else 1, case['maxb'] or 0]
@@ -401,6 +550,14 @@ def decode(out, case):
     if case['kind'] == 'hex':
         tag = r.int()
         return dict(kind='hex', value=r.int() if tag else None)
+    if case['kind'] == 'seq':
+        obs = []
+        for it in case['items']:
+            n = r.int()
+            sub = r.a[r.i:r.i + n]
+            r.i += n
+            obs.append(decode(sub, it))
+        return dict(kind='seq', items=obs)
     tag = r.int()
     if tag == 0:
         sp = r.bool()
@@ -410,6 +567,8 @@ def decode(out, case):
     if tag in (1, 2):
         reqs = r.list(lambda q: [q.int(), q.int()])
         return dict(status='too_large' if tag == 1 else 'parse_error', reqs=reqs, pos=r.int())
+    if tag == 8:                # int(CONTENT_LENGTH) raises ValueError: escapes as a 500 with a traceback
+        return dict(status='traceback_on_wsgi_errors', code=500)
     return dict(status='model_tag_%d' % tag)
 
 
@@ -417,7 +576,26 @@ def decode(out, case):
 # the property, stated on the implementation
 # --------------------------------------------------------------------------
 
+def cl_not_int(case):
+    cl = case.get('cl')
+    if not isinstance(cl, str) or cl == '':
+        return False
+    try:
+        int(cl)
+        return False
+    except ValueError:
+        return True
+
+
 def oracle(case, obs):
+    if case['kind'] == 'seq':
+        for i, (it, o) in enumerate(zip(case['items'], obs.get('items') or [])):
+            f = oracle(it, o)
+            if f:
+                return 'request %d of a sequence on shared application objects: %s' % (i, f)
+        if len(obs.get('items') or []) != len(case['items']):
+            return 'sequence not completed: %s' % (obs,)
+        return None
     if case['kind'] == 'hex':
         if 'value' in case and obs.get('value') != case['value']:
             return 'int(%r, 16) = %r, expected %d' % (bytes(case['b']), obs.get('value'), case['value'])
@@ -425,6 +603,8 @@ def oracle(case, obs):
     st = obs.get('status')
     allowed = ('ok', 'parse_error') + (('too_large',) if case['maxb'] is not None else ())
     if st not in allowed:
+        if cl_not_int(case):
+            return 'chunked request whose Content-Length is not an integer (%r) answered %s' % (case['cl'], obs)
         return 'chunked body caused %s instead of acceptance or a client error%s' % (
             obs, ' (application configured through %s)' % case['conf'] if case.get('conf', 'ctor') != 'ctor' else '')
     if st == 'too_large':
@@ -455,6 +635,8 @@ def oracle(case, obs):
 
 
 def nontrivial(case, obs):
+    if case['kind'] == 'seq':
+        return len(case['items']) >= 3 and len(set(o.get('status') for o in obs.get('items', []))) >= 2
     if case['kind'] != 'dec':
         return False
     reqs = obs.get('reqs') or []
@@ -467,20 +649,33 @@ def nontrivial(case, obs):
 def key(case):
     if case['kind'] == 'hex':
         return ('hex', tuple(case['b']))
+    if case['kind'] == 'seq':
+        return ('seq', tuple(key(it) for it in case['items']))
     return (tuple(case['data'][:80]), len(case['data']), case['buf'], tuple(case['sched'][:8]), case['via'],
-            case['maxb'], case.get('cl'), case.get('te'), case.get('conf'))
+            case['maxb'], case.get('cl'), case.get('te'), case.get('conf'), case.get('ctype'),
+            tuple(case.get('pre', ())))
 
 
 def classify(case, obs):
+    if case['kind'] == 'seq':
+        return 'seq/%d requests/%s' % (len(case['items']), '+'.join(sorted(set(str(o.get('status'))
+                                                                             for o in obs.get('items', [])))))
     if case['kind'] == 'hex':
         return 'hex/%s' % ('value' if obs.get('value') is not None else 'ValueError')
     via = case['via'] + ('+CL' if case.get('cl') is not None else '') + (
-        '' if case.get('conf', 'ctor') == 'ctor' else '+' + case['conf'])
+        '' if case.get('conf', 'ctor') == 'ctor' else '+' + case['conf']) + (
+        '+ctype' if case.get('ctype') else '') + ('+pre' if case.get('pre') else '')
     return '%s/%s/%s/%s/%s' % (via, case['note'], case['expect'],
                                'sched' if case['sched'] else 'full-reads', obs.get('status'))
 
 
 def shrink(case):
+    if case['kind'] == 'seq':
+        its = case['items']
+        for i in range(len(its)):
+            if len(its) > 1:
+                yield dict(case, items=its[:i] + its[i + 1:])
+        return
     if case['kind'] != 'dec':
         return
     s = case['sched']
@@ -497,7 +692,15 @@ def shrink(case):
             yield dict(case, data=d[:-1])
 
 
-PREDICATES = {}
+def _pred_cl_not_int(case, what, m):
+    """the defect of finding C12-content-length-not-int, seen from C05: BodyMixin.content_length raises
+    ValueError although the request is chunked"""
+    if case.get('kind') == 'seq':
+        return any(cl_not_int(it) for it in case['items'])
+    return case.get('kind') == 'dec' and case.get('via') == 'wsgi' and cl_not_int(case)
+
+
+PREDICATES = {'content_length_not_int': _pred_cl_not_int}
 
 MANIFEST = dict(
     text=('Proof: theorems in coq/props/C05.v (Coq, closed under the global context) state for ALL lists of chunks '
@@ -514,3 +717,16 @@ MANIFEST = dict(
               'correspondence',
     design_ref='DESIGN.md section 4, C05',
 )
+
+
+# --------------------------------------------------------------------------
+# dev-only: line coverage of the anchored functions  (VERIF_COVERAGE=1 ./check C05 --no-coq)
+# --------------------------------------------------------------------------
+COVERAGE_TARGETS = {
+    'ombott/request_pkg/body_mixin.py': ['_iter_chunked', '_body_read', 'BodyMixin._body', 'BodyMixin.body',
+                                         'BodyMixin.content_length', 'BodyMixin.chunked'],
+    'ombott/request_pkg/request.py': ['BaseRequest._raise', 'BaseRequest.setup', 'BaseRequest.__new__'],
+    'ombott/ombott.py': ['Ombott.setup', 'Ombott.__init__'],
+}
+from props.bodyA_cov import traced  # noqa: E402
+run_impl = traced(ID, run_impl, COVERAGE_TARGETS)
